@@ -287,6 +287,20 @@ pub fn run_c17(cfg: &Cfg) -> i32 {
             };
             faults.by_query.insert(q, f);
         }
+        // transient faults: hit only the first occurrence of a query (on the shared connection)
+        let nt = if candidates.is_empty() { 0 } else { r.range(0, 3.min(candidates.len())) };
+        for _ in 0..nt {
+            let q = candidates[r.below(candidates.len())].clone();
+            if faults.by_query.contains_key(&q) {
+                continue;
+            }
+            let f = match r.below(3) {
+                0 => Fault::KeyNotFound,
+                1 => Fault::NotUnique,
+                _ => Fault::Other("transient failure".into()),
+            };
+            faults.once.insert(q, f);
+        }
         let server = match Server::start(database.clone(), faults.clone()) {
             Ok(s) => s,
             Err(e) => {
@@ -296,15 +310,20 @@ pub fn run_c17(cfg: &Cfg) -> i32 {
         };
         let port = server.port();
         let texts: Vec<String> = exprs.iter().map(Expr::to_rpsl).collect();
-        // shared evaluator, in a helper thread (a hang must not wedge the check)
-        let (tx, rx) = mpsc::channel();
+        // shared evaluator, in a helper thread (a hang must not wedge the check); after every
+        // evaluation the main thread notes how far the server's log has grown, which tells which
+        // transient faults were consumed by which expression
+        let (tx, rx) = mpsc::channel::<Real>();
+        let (go_tx, go_rx) = mpsc::channel::<()>();
         let t2 = texts.clone();
         std::thread::spawn(move || {
-            let mut out: Vec<Real> = Vec::new();
             let mut ev = match bgpfu::RpslEvaluator::new("127.0.0.1", port) {
                 Ok(e) => e,
                 Err(e) => {
-                    let _ = tx.send(vec![Real::Err(format!("connect: {e:?}")); t2.len()]);
+                    for _ in &t2 {
+                        let _ = tx.send(Real::Err(format!("connect: {e:?}")));
+                        let _ = go_rx.recv();
+                    }
                     return;
                 }
             };
@@ -318,26 +337,78 @@ pub fn run_c17(cfg: &Cfg) -> i32 {
                         Err(p) => Real::Panic(crate::sess::panic_message(p)),
                     },
                 };
-                out.push(r);
+                if tx.send(r).is_err() || go_rx.recv().is_err() {
+                    return;
+                }
             }
-            let _ = tx.send(out);
         });
-        let shared = match rx.recv_timeout(Duration::from_secs(60)) {
-            Ok(v) => v,
-            Err(_) => {
-                rep.inconclusive(&format!("sequence {idx}"), "shared evaluator did not finish within 60 s");
-                server.stop();
-                continue;
+        let mut shared: Vec<Real> = Vec::new();
+        let mut consumed_by: Vec<Vec<String>> = Vec::new(); // transient faults consumed during expression j
+        let mut seen_log = 0usize;
+        let mut timed_out = false;
+        for _ in &texts {
+            match rx.recv_timeout(Duration::from_secs(60)) {
+                Ok(r) => {
+                    // let the server finish logging what it answered for this evaluation
+                    std::thread::sleep(Duration::from_millis(2));
+                    let log = server.log();
+                    let mut mine = Vec::new();
+                    let mut remaining: std::collections::BTreeSet<String> = faults.once.keys().cloned().collect();
+                    for prev in consumed_by.iter().flatten() {
+                        remaining.remove(prev);
+                    }
+                    for e in &log[seen_log.min(log.len())..] {
+                        if remaining.remove(&e.query) {
+                            mine.push(e.query.clone());
+                        }
+                    }
+                    seen_log = log.len();
+                    consumed_by.push(mine);
+                    shared.push(r);
+                    let _ = go_tx.send(());
+                }
+                Err(_) => {
+                    timed_out = true;
+                    break;
+                }
             }
-        };
-        let fresh: Vec<Real> = texts.iter().map(|t| eval_fresh(port, t, Duration::from_secs(30))).collect();
+        }
+        if timed_out {
+            rep.inconclusive(&format!("sequence {idx}"), "shared evaluator did not finish within 60 s");
+            server.stop();
+            continue;
+        }
+        // fresh evaluator per expression, on a fresh server whose transient faults are exactly
+        // those that hit this expression on the shared connection
+        let fresh: Vec<Real> = texts
+            .iter()
+            .enumerate()
+            .map(|(j, t)| {
+                if consumed_by[j].is_empty() && faults.once.is_empty() {
+                    return eval_fresh(port, t, Duration::from_secs(30));
+                }
+                let mut f2 = faults.clone();
+                f2.once.retain(|q, _| consumed_by[j].contains(q));
+                match Server::start(database.clone(), f2) {
+                    Ok(s2) => {
+                        let r = eval_fresh(s2.port(), t, Duration::from_secs(30));
+                        s2.stop();
+                        r
+                    }
+                    Err(e) => Real::Err(format!("harness: fresh server: {e}")),
+                }
+            })
+            .collect();
+        rep.count_n("transient_faults_injected", faults.once.len() as u64);
+        rep.count_n("transient_faults_consumed", consumed_by.iter().map(Vec::len).sum::<usize>() as u64);
         let any_fail_before = shared.iter().take(shared.len().saturating_sub(1)).any(|r| !matches!(r, Real::Ranges(_)));
-        let key = format!("{idx}|{texts:?}|{:?}", faults.by_query);
-        rep.case(if any_fail_before || nf > 0 { Some(key.as_bytes()) } else { None });
+        let key = format!("{idx}|{texts:?}|{:?}|{:?}", faults.by_query, faults.once);
+        rep.case(if any_fail_before || nf > 0 || !faults.once.is_empty() { Some(key.as_bytes()) } else { None });
         rep.count_n("expressions", texts.len() as u64);
         rep.count_n("faults_injected", nf as u64);
         rep.count_n("evaluations_failed_on_shared_connection", shared.iter().filter(|r| !matches!(r, Real::Ranges(_))).count() as u64);
-        let wit = |extra: Value| json!({"sequence": texts, "faults": faults.by_query.iter().map(|(q, f)| format!("{q} -> {f:?}")).collect::<Vec<_>>(), "case_index": idx, "seed": cfg.seed,
+        let wit = |extra: Value| json!({"sequence": texts, "faults": faults.by_query.iter().map(|(q, f)| format!("{q} -> {f:?}")).collect::<Vec<_>>(),
+            "transient_faults": faults.once.iter().map(|(q, f)| format!("{q} -> {f:?} (first occurrence only)")).collect::<Vec<_>>(), "transient_consumed_by_expression": consumed_by, "case_index": idx, "seed": cfg.seed,
             "db": database.to_json(), "observed": extra});
         for (j, (s, f)) in shared.iter().zip(fresh.iter()).enumerate() {
             if matches!(f, Real::Timeout) || matches!(s, Real::Timeout) {
